@@ -172,6 +172,53 @@ def rem (cfg : Cfg) (hash : κ → Nat) (t : Tab κ ν) (k : κ) : Except Fail (
       | .error f => .error f
       | .ok t' => .ok (t', .done)
 
+
+/-! ### compiled code: in-place updates.  The definitions above read `t.slots` while `t` (resp. the list of tables) is still
+    referenced, which makes the compiled code copy the slot array on every write.  The variants below take the record apart
+    first; `@[csimp]` replaces the originals in compiled code only after Lean has checked the equality proofs. -/
+
+def setMoveFast (cfg : Cfg) (hash : κ → Nat) (t : Tab κ ν) (k : κ) (v : ν) : Except Fail (Tab κ ν) :=
+  match t with
+  | ⟨n, slots, nitems⟩ =>
+    if hn : n = 0 then .error .ub
+    else
+      match setLoop cfg.ge n slots ⟨k, hash k % n, v⟩ (hash k % n) 0 (Nat.mod_lt _ (Nat.pos_of_ne_zero hn)) with
+      | none => .error .diverge
+      | some (s, added) => .ok ⟨n, s, if added then nitems + 1 else nitems⟩
+
+@[csimp] theorem setMove_eq_fast : @setMove = @setMoveFast := by
+  funext κ ν inst cfg hash t k v
+  cases t
+  simp only [setMove, setMoveFast]
+  split
+  · rfl
+  · split <;> rename_i h <;> simp only [h]
+
+def remFast (cfg : Cfg) (hash : κ → Nat) (t : Tab κ ν) (k : κ) : Except Fail (Tab κ ν × Obs κ ν) :=
+  match find hash t k with
+  | .error f => .error f
+  | .ok none => .ok (t, .raised .KeyError)
+  | .ok (some i) =>
+    match t, i with
+    | ⟨n, slots, nitems⟩, i =>
+      match shiftBack n (slots.set i none) i i.isLt with
+      | none => .error .diverge
+      | some s =>
+        match resizeLess cfg hash ⟨n, s, nitems - 1⟩ with
+        | .error f => .error f
+        | .ok t' => .ok (t', .done)
+
+@[csimp] theorem rem_eq_fast : @rem = @remFast := by
+  funext κ ν inst cfg hash t k
+  cases t
+  simp only [rem, remFast]
+  split
+  · rfl
+  · rfl
+  · split
+    · rename_i h2; simp only [h2]
+    · rename_i h2; simp only [h2]
+
 /-- `Table_Clear` -/
 def clear (_t : Tab κ ν) : Tab κ ν := ⟨0, #v[], 0⟩
 
@@ -316,6 +363,95 @@ def step (cfg : Cfg) (hash : κ → Nat) (ts : List (Tab κ ν)) : Op κ ν → 
       | .error f => .error f
       | .ok tb' => .ok (ts.set dst tb', .done)
     | _, _ => .ok (ts, .badOp)
+
+
+/-- take element `i` out of a list, leaving `d` in its place (one traversal; the element is moved, not shared) -/
+def takeOut {α : Type} (d : α) : List α → Nat → Option (α × List α)
+  | [], _ => none
+  | a :: as, 0 => some (a, d :: as)
+  | a :: as, i+1 =>
+    match takeOut d as i with
+    | none => none
+    | some (x, r) => some (x, a :: r)
+
+theorem takeOut_eq {α : Type} (d : α) : ∀ (l : List α) (i : Nat), takeOut d l i = (l[i]?).map (fun x => (x, l.set i d))
+  | [], _ => rfl
+  | a :: as, 0 => rfl
+  | a :: as, i+1 => by
+    simp only [takeOut, takeOut_eq d as i, List.getElem?_cons_succ, List.set_cons_succ]
+    cases as[i]? <;> rfl
+
+/-- compiled form of `step`: for `set` and `rem` the table is first taken out of the list (a dummy is left in its place),
+    so that the operation owns it and updates its slot array in place -/
+def stepFast (cfg : Cfg) (hash : κ → Nat) (ts : List (Tab κ ν)) : Op κ ν → Except Fail (List (Tab κ ν) × Obs κ ν)
+  | .set t k v =>
+    match takeOut (Tab.empty 0) ts t with
+    | none => .ok (ts, .badOp)
+    | some (tb, ts0) =>
+      match set cfg hash tb k v with
+      | .error f => .error f
+      | .ok tb' => .ok (ts0.set t tb', .done)
+  | .rem t k =>
+    match takeOut (Tab.empty 0) ts t with
+    | none => .ok (ts, .badOp)
+    | some (tb, ts0) =>
+      match rem cfg hash tb k with
+      | .error f => .error f
+      | .ok (tb', o) => .ok (ts0.set t tb', o)
+  | .new t => if t < ts.length then .ok (ts.set t (new cfg), .done) else .ok (ts, .badOp)
+  | .get t k =>
+    match ts[t]? with
+    | none => .ok (ts, .badOp)
+    | some tb => match get hash tb k with
+      | .error f => .error f
+      | .ok o => .ok (ts, o)
+  | .mem t k =>
+    match ts[t]? with
+    | none => .ok (ts, .badOp)
+    | some tb => match mem hash tb k with
+      | .error f => .error f
+      | .ok o => .ok (ts, o)
+  | .len t =>
+    match ts[t]? with
+    | none => .ok (ts, .badOp)
+    | some tb => .ok (ts, .nat tb.nitems)
+  | .iter t =>
+    match ts[t]? with
+    | none => .ok (ts, .badOp)
+    | some tb => .ok (ts, .items (foreach tb))
+  | .riter t =>
+    match ts[t]? with
+    | none => .ok (ts, .badOp)
+    | some tb => .ok (ts, .items (foreachRev tb))
+  | .resize t m =>
+    match ts[t]? with
+    | none => .ok (ts, .badOp)
+    | some tb => match resize cfg hash tb m with
+      | .error f => .error f
+      | .ok (tb', o) => .ok (ts.set t tb', o)
+  | .assign dst src =>
+    match ts[dst]?, ts[src]? with
+    | some _, some sb =>
+      if dst = src then .ok (ts.set dst (assignSelf cfg), .done)
+      else match assignFrom cfg hash sb with
+        | .error f => .error f
+        | .ok tb' => .ok (ts.set dst tb', .done)
+    | _, _ => .ok (ts, .badOp)
+  | .copy dst src =>
+    -- tables[dst] = copy(tables[src]) : `assign(alloc(Table), src)`; the previous tables[dst] is deleted afterwards
+    match ts[dst]?, ts[src]? with
+    | some _, some sb =>
+      match assignFrom cfg hash sb with
+      | .error f => .error f
+      | .ok tb' => .ok (ts.set dst tb', .done)
+    | _, _ => .ok (ts, .badOp)
+
+@[csimp] theorem step_eq_fast : @step = @stepFast := by
+  funext κ ν inst cfg hash ts op
+  cases op with
+  | set t k v => simp only [step, stepFast, takeOut_eq]; cases ts[t]? <;> simp only [Option.map_none, Option.map_some, List.set_set]
+  | rem t k => simp only [step, stepFast, takeOut_eq]; cases ts[t]? <;> simp only [Option.map_none, Option.map_some, List.set_set]
+  | _ => simp only [step, stepFast]
 
 /-- a history: the observations in order, and the final tables -/
 def run (cfg : Cfg) (hash : κ → Nat) : List (Tab κ ν) → List (Op κ ν) → Except Fail (List (Tab κ ν) × List (Obs κ ν))
